@@ -165,28 +165,50 @@ type Automaton struct {
 	Edge func(state int, facts []Fact) (int, bool)
 }
 
+// StateSet is a set of automaton states (0..255).
+type StateSet [4]uint64
+
+func (s *StateSet) add(i int) bool {
+	if i < 0 || i >= 256 {
+		panic("automaton state out of range")
+	}
+	w, b := i/64, uint(i%64)
+	if s[w]&(1<<b) != 0 {
+		return false
+	}
+	s[w] |= 1 << b
+	return true
+}
+
+// Has reports membership.
+func (s *StateSet) Has(i int) bool { return i >= 0 && i < 256 && s[i/64]&(1<<uint(i%64)) != 0 }
+
+func (s *StateSet) each(fn func(int)) {
+	for i := 0; i < 256; i++ {
+		if s[i/64]&(1<<uint(i%64)) != 0 {
+			fn(i)
+		}
+	}
+}
+
 // Run iterates the automaton to a fixed point.  It returns, per block, the
 // set of states at block entry.
-func (f *Flow) Run(a *Automaton) map[*cfg.Block]uint64 {
-	in := map[*cfg.Block]uint64{}
+func (f *Flow) Run(a *Automaton) map[*cfg.Block]*StateSet {
+	in := map[*cfg.Block]*StateSet{}
 	if len(f.G.Blocks) == 0 {
 		return in
 	}
 	entry := f.G.Blocks[0]
-	in[entry] = 1 << uint(a.Init)
+	in[entry] = &StateSet{}
+	in[entry].add(a.Init)
 	work := []*cfg.Block{entry}
 	inWork := map[*cfg.Block]bool{entry: true}
 	for len(work) > 0 {
 		b := work[0]
 		work = work[1:]
 		inWork[b] = false
-		states := in[b]
-		// per-state propagation through the nodes
 		var outStates []int
-		for s := 0; s < 64; s++ {
-			if states&(1<<uint(s)) == 0 {
-				continue
-			}
+		in[b].each(func(s int) {
 			cur := s
 			for _, n := range b.Nodes {
 				cur = a.Node(cur, n)
@@ -197,13 +219,16 @@ func (f *Flow) Run(a *Automaton) map[*cfg.Block]uint64 {
 			if cur >= 0 {
 				outStates = append(outStates, cur)
 			}
-		}
+		})
 		for i, succ := range b.Succs {
 			var facts []Fact
 			if a.Edge != nil {
 				facts = f.EdgeFacts(b, i)
 			}
-			var add uint64
+			if in[succ] == nil {
+				in[succ] = &StateSet{}
+			}
+			changed := false
 			for _, s := range outStates {
 				ns := s
 				if a.Edge != nil && len(facts) > 0 {
@@ -213,14 +238,13 @@ func (f *Flow) Run(a *Automaton) map[*cfg.Block]uint64 {
 						continue
 					}
 				}
-				add |= 1 << uint(ns)
-			}
-			if add&^in[succ] != 0 {
-				in[succ] |= add
-				if !inWork[succ] {
-					work = append(work, succ)
-					inWork[succ] = true
+				if in[succ].add(ns) {
+					changed = true
 				}
+			}
+			if changed && !inWork[succ] {
+				work = append(work, succ)
+				inWork[succ] = true
 			}
 		}
 	}
